@@ -25,6 +25,21 @@ pub fn handle(words: &[&str]) -> String {
     format!("{re} {bits}")
 }
 
+/// `rxrefs REGEXTYPE PATTERN`: the -regex back-reference check (1: every reference is to a complete group)
+pub fn handle_rxrefs(words: &[&str]) -> String {
+    let [ty, pat] = words else {
+        return "badcase".into();
+    };
+    let Ok(p) = String::from_utf8(unhex(pat)) else {
+        return "badutf8".into();
+    };
+    match findutils::find::matchers::regex_verif::back_references_ok(&p, ty) {
+        Some(true) => "1".into(),
+        Some(false) => "0".into(),
+        None => "badcase".into(),
+    }
+}
+
 /// `rxwrap REGEXTYPE PATTERN`: the -regex wrapper's inside_group (hex of the result)
 pub fn handle_rxwrap(words: &[&str]) -> String {
     let [ty, pat] = words else {
